@@ -172,6 +172,17 @@ func c01Child(scPath string) int {
 				}
 			}
 		}
+		// "reported back to that queue as finished": the row of every seed the finisher notified must be gone
+		// from the queue database (the queue deletes by id; a finish report that names the wrong row leaves
+		// the right one behind)
+		if rows, err := readLQ(filepath.Join(dir, "jobs", "j", "lq.db")); err == nil {
+			for _, row := range rows {
+				rep.event("queue_rows_left_at_quiescence", 1)
+				if len(notified[row.ID]) > 0 {
+					rep.violation("finished-seed-row-still-in-queue", fmt.Sprintf("seed %s (%s) was reported finished (%d notification) but its row is still in the queue database with status %s at quiescence", row.ID, row.Value, len(notified[row.ID]), row.Status), witness(row.ID))
+				}
+			}
+		}
 		// every valid, in-scope URL the hubs put into the queue must have been taken from it and crawled
 		if sc.Cfg.MaxHops >= 1 {
 			hubsDelivered := 0
